@@ -116,8 +116,7 @@ Variable cube_log2 : Z -> Z.
    Repaired tree: typeid( *this->vs_ ): equal exactly for that strategy. *)
 Variable typeid_is : validator -> validator -> bool.
 
-Definition tune_src (d : tenv) (terminals : Z) (v : validator) (rows : Z) (e : tenv) : tenv :=
-  let t0 := tune_base d terminals e in
+Definition tune_src_from (t0 d : tenv) (v : validator) (rows : Z) (e : tenv) : tenv :=
   let t1 := if layers e =? 0 then
               (if (1 <? layers d) && (8 <? rows) then set_layers t0 (ln_floor rows) else set_layers t0 (layers d))
             else t0 in
@@ -132,6 +131,33 @@ Definition tune_src (d : tenv) (terminals : Z) (v : validator) (rows : Z) (e : t
   match validation e with
   | None => if typeid_is v VHoldout then set_validation t3 (validation d) else t3
   | Some _ => t3
+  end.
+
+Definition tune_src (d : tenv) (terminals : Z) (v : validator) (rows : Z) (e : tenv) : tenv :=
+  tune_src_from (tune_base d terminals e) d v rows e.
+
+(* environment::reconcile(user): the parameters the user left open are made
+   consistent with the ones the user set; a user's value is never changed
+   (repair of the finding tune_valid_size_conflict) *)
+Definition reconcile (u t : tenv) : tenv :=
+  let ind := if individuals u =? 0 then Z.max (Z.max (individuals t) (min_individuals u)) (tournament u)
+             else individuals t in
+  let mini := if min_individuals u =? 0 then Z.min (min_individuals t) ind else min_individuals t in
+  let mate := if mate_zone u =? 0 then Z.max (mate_zone t) (tournament u) else mate_zone t in
+  let tour := if tournament u =? 0 then Z.min (Z.min (tournament t) ind) mate else tournament t in
+  let code := if code_length u =? 0 then Z.max (code_length t) (patch_length u + 1) else code_length t in
+  let patch := if patch_length u =? 0 then Z.min (patch_length t) (code - 1) else patch_length t in
+  mkTenv code patch (elitism t) (p_mutation t) (p_cross t) (brood t) (layers t) ind mini tour mate
+         (generations t) (max_stuck_time t) (dss t) (validation t) (age_gap t) (p_same_layer t) (team_individuals t).
+
+(* the tuning functions with the calls of reconcile (repaired tree) *)
+Definition tune_rec (k : skind) (terminals : Z) (e : tenv) : tenv :=
+  let d := dflt_of (strat_of k) in
+  let t0 := reconcile e (tune_base d terminals e) in
+  match k with
+  | KSearch _ => t0
+  | KGa _ => if min_individuals t0 <? 10 then set_min_individuals t0 (Z.min 10 (individuals t0)) else t0
+  | KSrc _ v rows => reconcile e (tune_src_from t0 d v rows e)
   end.
 
 Definition tune (k : skind) (terminals : Z) (e : tenv) : tenv :=
@@ -221,6 +247,7 @@ Definition kept_other (e t : tenv) : bool :=
 Definition kept_min (k : skind) (e t : tenv) : bool :=
   match k with
   | KGa _ => (min_individuals e =? 0) || (min_individuals t =? Z.max (min_individuals e) 10)
+             || (min_individuals t =? Z.min 10 (individuals t))
   | _ => zkept (min_individuals e) (min_individuals t)
   end.
 
